@@ -134,6 +134,9 @@ impl Property for C02 {
     fn id(&self) -> &'static str {
         "C02"
     }
+    fn probes_not_applicable(&self) -> Vec<(&'static str, &'static str)> {
+        vec![("probe.restart_taken", "bmc never restarts its solver; only the PDR engine does (see C03/C10/C15)")]
+    }
     fn runs(&self, tier: Tier) -> usize {
         match tier {
             Tier::Quick => 40_000,
@@ -240,7 +243,15 @@ impl Property for C02 {
             Tier::Quick => (8, 3, 6),
             Tier::Thorough => (11, 4, 8),
         };
-        let sys = gen_system(&mut rng, msb, mib, false, |_| {});
+        // one run in four allows states with an init but no next-state function: such a state is
+        // unconstrained from step 1 on (the encoding gives it a fresh symbol per step); the
+        // reference reachability enumerates its valuations
+        let free_next = Rng::stream(run_seed, "free-next").chance(1, 4);
+        let sys = gen_system(&mut rng, msb, mib, false, |c| c.init_without_next = free_next);
+        acc.count(
+            "probe.state_with_init_without_next",
+            sys.states.iter().any(|s| s.init.is_some() && s.next.is_none()) as u64,
+        );
         let r = reach(&sys, 0);
         let mut crng = Rng::stream(run_seed, "config");
         // two configurations of the same system per run (cross-configuration agreement follows
